@@ -103,7 +103,12 @@ other("C01", "the transition tables of PandoraMachine (check and run phases) are
       "checked pipeline -- every history of checks on one machine --, the checking transitions are installed before and removed "
       "after the steps, every step of the user's pipeline is triggered in the pipeline's order with the pipeline section and its "
       "own key (a suffixed key fires the trigger of its head), the machine returns to 'begin', a requested right map adds exactly "
-      "one second round with the images exchanged and the records point at (left, right) again afterwards; the behaviour of the "
+      "one second round with the images exchanged and the records point at (left, right) again afterwards; pandora.run, "
+      "PandoraMachine.run and run_exit (trace contracts): the machine is prepared once with the configuration's scale parameters "
+      "before any step, every step of the pipeline is handed to the machine in the pipeline's own order at every scale, a step "
+      "fires the trigger of its head with the whole configuration and its own key, a scale ends early only when the machine is "
+      "back at 'begin', the machine is reset once after the steps (run transitions removed, state 'begin'), and the machine's own "
+      "left then right disparity datasets are returned; the behaviour of the "
       "transitions library itself (which trigger is legal in which state) and the execution of whole pipelines:")
 other("C02", "point_interval (the column ranges of the two images that a disparity puts in correspondence: in range, equal length, "
       "offset by the disparity, empty when the disparity exceeds the width) and popcount32b (Hamming weight of a 32-bit word, "
